@@ -12,6 +12,9 @@
 (*   ReaderFault  the container raises outside the per-row handler 244     *)
 (*   ReaderEnd    the consumer stops (exhausted / raised / islice / abandon*)
 (*                / forget) and, unless forgotten, close() runs    146-161 *)
+(*   Park/Resume  a reader that was created is set aside while other       *)
+(*                readers and writers use the CID, and iterated later      *)
+(*                (`readers = [Reader(cid, p) for p in paths]`)            *)
 (*   OpenWriter   Writer.__init__                                  278-295 *)
 (*   WriterRow    Writer.write_row                                 320-330 *)
 (*   WriterEnd    Writer.close or nothing                          338-344 *)
@@ -25,6 +28,11 @@
 (*   RegisterOnReach    FALSE: a key is registered only for accepted rows  *)
 (*                      (C05); TRUE: pinned code, a unique check registers *)
 (*                      the key although a later check rejects the row(D12)*)
+(*   ResetOnStart       TRUE: checks are reset at the first next() of      *)
+(*                      Reader.rows(); FALSE: only when the reader is      *)
+(*                      created -- then a reader created early and read    *)
+(*                      late inherits what happened in between (expected   *)
+(*                      counterexample with Parking)                       *)
 (*   EndChecksOnError   FALSE: a failing end-of-data check never replaces  *)
 (*                      the error that ended the run (C06); TRUE: pinned   *)
 (*                      code (D8)                                          *)
@@ -41,14 +49,16 @@ CONSTANTS NFields,            \* number of declared fields
           Ends,               \* how a read may end: subset of {"close", "forget", "abandon"}
           Writers,            \* BOOLEAN: writers take part
           MaxOps,             \* length of histories explored
-          ResetOnOpen, RegisterOnReach, EndChecksOnError,
+          Parking,            \* BOOLEAN: a created reader may be set aside and iterated after other runs
+          ResetOnOpen, ResetOnStart, RegisterOnReach, EndChecksOnError,
           LogCalls            \* BOOLEAN: keep the call log (C20)
 
 VARIABLES chk,   \* state living in the CID: per check, unique: set of <<key, row number>>; distinct: set of values
           sess,  \* open session or NoSess
           hist,  \* finished runs with their observable results
-          calls  \* call log of the open session (C20)
-vars == <<chk, sess, hist, calls>>
+          calls, \* call log of the open session (C20)
+          parked \* a reader that was created but is not iterated yet, or NoSess
+vars == <<chk, sess, hist, calls, parked>>
 
 None == <<>>
 Some(n) == <<n>>
@@ -63,6 +73,9 @@ Err(cls, line, cell, by, see) == [cls |-> cls, line |-> line, cell |-> cell, by 
 \* a row: w = item count class, c = per cell class, v = per cell value (as seen by the checks)
 \*   cell classes: "ok"  accepted by the field's value hook      "emp" empty and allowed to be (hook not called)
 \*                 "rej" refused by the value hook               "grd" refused by a guard before the hook
+\*   item count classes (w): "ok", "short", "long", and "enc": the right number of items, every cell as its class says, but
+\*   the row holds a character the target's encoding cannot represent (only a writer can meet such a row)
+CountOk(row) == row.w \in {"ok", "enc"}
 BadCells(row) == {i \in 1..Len(row.c) : row.c[i] \in {"rej", "grd"}}
 FirstBad(row) == IF BadCells(row) = {} THEN 0 ELSE Min(BadCells(row))
 
@@ -90,7 +103,7 @@ RunChecks(c, st, row, line, ror) ==
 
 \* validio.py:90-144
 RowVerdict(st, row, line, ror) ==
-  IF row.w # "ok" THEN <<st, Err("DataError", line, 1, 0, 0), 0>>
+  IF ~CountOk(row) THEN <<st, Err("DataError", line, 1, 0, 0), 0>>
   ELSE IF FirstBad(row) # 0 THEN <<st, Err("FieldValueError", line, FirstBad(row), 0, 0), 0>>
   ELSE RunChecks(1, st, row, line, ror)
 
@@ -112,7 +125,7 @@ HookCalls(row, i) == LET last == IF FirstBad(row) = 0 THEN Len(row.c) ELSE First
                                      ELSE (IF j \in idx THEN <<<<"value", j, i>>>> ELSE <<>>) \o Build(j + 1)
                      IN Build(1)
 CheckRowCalls(n, i) == [c \in 1..n |-> <<"check_row", c, i>>]
-RowCalls(row, i, seen) == IF row.w # "ok" THEN <<>> ELSE HookCalls(row, i) \o CheckRowCalls(seen, i)
+RowCalls(row, i, seen) == IF ~CountOk(row) THEN <<>> ELSE HookCalls(row, i) \o CheckRowCalls(seen, i)
 ResetCalls == [c \in 1..NChecks |-> <<"reset", c>>]
 CloseCalls(endFail) == [c \in 1..(IF endFail = 0 THEN NChecks ELSE endFail) |-> <<"check_at_end", c>>]
                        \o [c \in 1..NChecks |-> <<"cleanup", c>>]
@@ -173,10 +186,16 @@ RECURSIVE WriteFold(_, _, _, _, _)
 WriteFold(tbl, i, line, a, ror) ==
   IF i > Len(tbl.rows) THEN a
   ELSE IF line < Header
-       THEN WriteFold(tbl, i + 1, line + 1, [a EXCEPT !.out = Append(@, ItemRow(i)), !.acc = @ + 1], ror)
+       THEN IF tbl.rows[i].w = "enc"
+            THEN WriteFold(tbl, i + 1, line, [a EXCEPT !.out = Append(@, ItemErr(Err("DataFormatError", i, 0, 0, 0))), !.rej = @ + 1], ror)
+            ELSE WriteFold(tbl, i + 1, line + 1, [a EXCEPT !.out = Append(@, ItemRow(i)), !.acc = @ + 1], ror)
   ELSE LET r == RowVerdict(a.st, tbl.rows[i], line + 1, ror)
            cl == Log(RowCalls(tbl.rows[i], i, r[3]))
-       IN IF r[2].cls = "none"
+       IN IF r[2].cls = "none" /\ tbl.rows[i].w = "enc"
+          THEN WriteFold(tbl, i + 1, line,
+                         [a EXCEPT !.st = r[1], !.out = Append(@, ItemErr(Err("DataFormatError", i, 0, 0, 0))), !.rej = @ + 1,
+                                   !.calls = @ \o cl], ror)
+          ELSE IF r[2].cls = "none"
           THEN WriteFold(tbl, i + 1, line + 1,
                          [a EXCEPT !.st = r[1], !.out = Append(@, ItemRow(i)), !.acc = @ + 1, !.calls = @ \o cl], ror)
           ELSE WriteFold(tbl, i + 1, line,
@@ -188,16 +207,20 @@ ExpectedWrite(tbl, closed, ror) ==
      ELSE [out |-> a.out, acc |-> a.acc, rej |-> a.rej, exc |-> NoErr, calls |-> a.calls]
 
 (* --------------------------- the operational machine --------------------------- *)
-Init == chk = EmptyChk /\ sess = NoSess /\ hist = <<>> /\ calls = <<>>
+Init == chk = EmptyChk /\ sess = NoSess /\ hist = <<>> /\ calls = <<>> /\ parked = NoSess
+\* every run that was begun can still be finished within MaxOps
+Room == Len(hist) + (IF parked.kind = "none" THEN 0 ELSE 1) < MaxOps
 
 OpenReader(api, ds, mode, limit, end, k) ==
-  /\ sess.kind = "none" /\ Len(hist) < MaxOps
+  /\ UNCHANGED parked
+  /\ sess.kind = "none" /\ Room
   /\ api = "validate" => mode = "raise" /\ end = "close"
   /\ api = "rows" => end \in {"close", "abandon"}          \* the generator function closes itself
   /\ end = "abandon" => k \in 1..Len(ds.rows)
   /\ end # "abandon" => k = 0
   /\ sess' = [kind |-> "reader", api |-> api, ds |-> ds, mode |-> mode, limit |-> limit, end |-> end, k |-> k,
-              started |-> FALSE, pos |-> 0, out |-> <<>>, acc |-> 0, rej |-> 0, yielded |-> 0, exc |-> NoErr]
+              started |-> FALSE, pos |-> 0, out |-> <<>>, acc |-> 0, rej |-> 0, yielded |-> 0, exc |-> NoErr,
+              resumed |-> FALSE, createdAt |-> Len(hist)]
   /\ chk' = IF ResetOnOpen THEN EmptyChk ELSE chk
   /\ calls' = IF ResetOnOpen THEN Log(ResetCalls) ELSE <<>>
   /\ UNCHANGED hist
@@ -210,19 +233,22 @@ Wants == /\ sess.exc.cls = "none"
 
 \* validio.py:239-242 -- runs at the first next() of the generator
 ReaderStart ==
+  /\ UNCHANGED parked
   /\ sess.kind = "reader" /\ ~sess.started /\ Wants
-  /\ chk' = EmptyChk
-  /\ calls' = IF ResetOnOpen THEN calls ELSE calls \o Log(ResetCalls)
+  /\ chk' = IF ResetOnStart THEN EmptyChk ELSE chk
+  /\ calls' = IF ResetOnOpen /\ ~sess.resumed THEN calls ELSE calls \o Log(ResetCalls)
   /\ sess' = [sess EXCEPT !.started = TRUE]
   /\ UNCHANGED hist
 
 ReaderFault ==
+  /\ UNCHANGED parked
   /\ sess.kind = "reader" /\ sess.started /\ Wants
   /\ Tbl.fault = sess.pos + 1
   /\ sess' = [sess EXCEPT !.exc = Err("DataFormatError", sess.pos + 1, 0, 0, 0)]
   /\ UNCHANGED <<chk, hist, calls>>
 
 ReaderRow ==
+  /\ UNCHANGED parked
   /\ sess.kind = "reader" /\ sess.started /\ Wants
   /\ Tbl.fault # sess.pos + 1
   /\ sess.pos < Len(Tbl.rows)
@@ -250,10 +276,11 @@ Done == \/ ~Wants
 Abandoned == sess.end = "abandon" /\ sess.yielded = sess.k
 
 RunRecord(res) == [op |-> "read", api |-> sess.api, ds |-> sess.ds, mode |-> sess.mode, limit |-> sess.limit,
-                   end |-> sess.end, k |-> sess.k, res |-> res]
+                   end |-> sess.end, k |-> sess.k, deferred |-> sess.resumed, createdAt |-> sess.createdAt, res |-> res]
 
 \* the consumer stops; close() runs unless the reader is simply forgotten
 ReaderEnd ==
+  /\ UNCHANGED parked
   /\ sess.kind = "reader"
   /\ Done
   /\ IF sess.end = "forget" \/ (sess.end = "abandon" /\ sess.api # "rows")
@@ -268,7 +295,8 @@ ReaderEnd ==
   /\ sess' = NoSess /\ calls' = <<>> /\ UNCHANGED chk
 
 OpenWriter(ds, closes) ==
-  /\ Writers /\ sess.kind = "none" /\ Len(hist) < MaxOps
+  /\ UNCHANGED parked
+  /\ Writers /\ sess.kind = "none" /\ Room
   /\ ds.fault = 0
   /\ sess' = [kind |-> "writer", ds |-> ds, closes |-> closes, pos |-> 0, line |-> 0, out |-> <<>>, acc |-> 0, rej |-> 0]
   /\ chk' = IF ResetOnOpen THEN EmptyChk ELSE chk
@@ -277,21 +305,28 @@ OpenWriter(ds, closes) ==
 
 \* validio.py:320-330 -- a rejected row raises, emits nothing, and writing may continue
 WriterRow ==
+  /\ UNCHANGED parked
   /\ sess.kind = "writer" /\ sess.pos < Len(Tbl.rows)
   /\ LET i == sess.pos + 1
          row == Tbl.rows[i]
      IN IF sess.line < Header
-        THEN /\ sess' = [sess EXCEPT !.pos = i, !.line = @ + 1, !.acc = @ + 1, !.out = Append(@, ItemRow(i))]
+        THEN /\ sess' = IF row.w = "enc"
+                        THEN [sess EXCEPT !.pos = i, !.rej = @ + 1, !.out = Append(@, ItemErr(Err("DataFormatError", i, 0, 0, 0)))]
+                        ELSE [sess EXCEPT !.pos = i, !.line = @ + 1, !.acc = @ + 1, !.out = Append(@, ItemRow(i))]
              /\ UNCHANGED <<chk, calls>>
         ELSE LET r == RowVerdict(chk, row, sess.line + 1, RegisterOnReach) IN
              /\ chk' = r[1]
              /\ calls' = calls \o Log(RowCalls(row, i, r[3]))
-             /\ sess' = IF r[2].cls = "none"
+             \* (validation is complete before the row is handed to the container's writer, which refuses what it cannot encode)
+             /\ sess' = IF r[2].cls = "none" /\ row.w # "enc"
                         THEN [sess EXCEPT !.pos = i, !.line = @ + 1, !.acc = @ + 1, !.out = Append(@, ItemRow(i))]
+                        ELSE IF r[2].cls = "none"
+                        THEN [sess EXCEPT !.pos = i, !.rej = @ + 1, !.out = Append(@, ItemErr(Err("DataFormatError", i, 0, 0, 0)))]
                         ELSE [sess EXCEPT !.pos = i, !.rej = @ + 1, !.out = Append(@, ItemErr([r[2] EXCEPT !.line = i]))]
   /\ UNCHANGED hist
 
 WriterEnd ==
+  /\ UNCHANGED parked
   /\ sess.kind = "writer" /\ sess.pos = Len(Tbl.rows)
   /\ LET ef == EndFailure(chk)
          res == IF sess.closes
@@ -299,12 +334,23 @@ WriterEnd ==
                       exc |-> IF ef # 0 THEN Err("CheckError", 0, 0, ef, 0) ELSE NoErr, calls |-> calls \o Log(CloseCalls(ef))]
                 ELSE [out |-> sess.out, acc |-> sess.acc, rej |-> sess.rej, exc |-> NoErr, calls |-> calls]
      IN hist' = Append(hist, [op |-> "write", api |-> "writer", ds |-> sess.ds, mode |-> "raise", limit |-> None,
-                              end |-> IF sess.closes THEN "close" ELSE "forget", k |-> 0, res |-> res])
+                              end |-> IF sess.closes THEN "close" ELSE "forget", k |-> 0, deferred |-> FALSE,
+                              createdAt |-> Len(hist), res |-> res])
   /\ sess' = NoSess /\ calls' = <<>> /\ UNCHANGED chk
 
 \* (the guards are repeated in front of the quantifiers so that TLC does not enumerate Tables in every state)
-Idle == sess.kind = "none" /\ Len(hist) < MaxOps
-Next == \/ Idle /\ \E api \in Apis, ds \in Tables, m \in Modes, l \in Limits, e \in Ends :
+Idle == sess.kind = "none" /\ Room
+\* a reader object that exists but whose rows() has not been called is set aside ...
+Park ==
+  /\ Parking /\ sess.kind = "reader" /\ sess.api = "reader" /\ ~sess.started /\ ~sess.resumed /\ parked.kind = "none"
+  /\ Len(hist) + 1 < MaxOps                                      \* (something else can happen in between)
+  /\ parked' = sess /\ sess' = NoSess /\ calls' = <<>> /\ UNCHANGED <<chk, hist>>
+\* ... and taken up again when no other reader or writer is busy; what it logs from now on is its own data set
+Resume ==
+  /\ sess.kind = "none" /\ parked.kind # "none" /\ Len(hist) > parked.createdAt
+  /\ sess' = [parked EXCEPT !.resumed = TRUE] /\ parked' = NoSess /\ calls' = <<>> /\ UNCHANGED <<chk, hist>>
+Next == \/ Park \/ Resume
+        \/ Idle /\ \E api \in Apis, ds \in Tables, m \in Modes, l \in Limits, e \in Ends :
                      \E k \in (IF e = "abandon" THEN 1..Len(ds.rows) ELSE {0}) : OpenReader(api, ds, m, l, e, k)
         \/ ReaderStart \/ ReaderFault \/ ReaderRow \/ ReaderEnd
         \/ Idle /\ Writers /\ \E ds \in Tables, closes \in BOOLEAN : OpenWriter(ds, closes)
@@ -348,7 +394,7 @@ ProtocolHolds ==
        /\ \A i \in 1..Len(tbl.rows) : \A f \in 1..NFields :
             LET row == tbl.rows[i]
                 called == \E j \in 1..Len(log) : log[j] = <<"value", f, i>>
-                wanted == /\ InWindow(r.limit, i) /\ row.w = "ok"
+                wanted == /\ InWindow(r.limit, i) /\ CountOk(row)
                           /\ row.c[f] \in {"ok", "rej"}
                           /\ \A g \in 1..(f - 1) : row.c[g] \in {"ok", "emp"}
             IN called <=> wanted
@@ -357,7 +403,7 @@ ProtocolHolds ==
        /\ \A i \in 1..Len(tbl.rows) : \A c \in 1..NChecks :
             LET row == tbl.rows[i]
                 seen == Cardinality({j \in 1..Len(log) : log[j] = <<"check_row", c, i>>})
-                wanted == /\ InWindow(r.limit, i) /\ row.w = "ok" /\ FirstBad(row) = 0
+                wanted == /\ InWindow(r.limit, i) /\ CountOk(row) /\ FirstBad(row) = 0
                           /\ \A d \in 1..(c - 1) : ~Vetoes(d, row)
             IN seen = (IF wanted THEN 1 ELSE 0)
        \* calls follow the rows in input order
@@ -389,7 +435,7 @@ AcceptedSet(tbl, i) ==
   IF i <= Header \/ i = 0 THEN {}
   ELSE LET prev == AcceptedSet(tbl, i - 1)
            row == tbl.rows[i]
-           fine == row.w = "ok" /\ FirstBad(row) = 0
+           fine == CountOk(row) /\ FirstBad(row) = 0
            dup == \E c \in 1..NChecks : Checks[c].t = "u" /\ \E b \in prev : KeyOf(c, tbl.rows[b]) = KeyOf(c, row)
            veto == \E c \in 1..NChecks : Vetoes(c, row)
        IN IF fine /\ ~dup /\ ~veto THEN prev \cup {i} ELSE prev
@@ -409,9 +455,9 @@ ErrorLocation ==
         LET it == Last.res.out[j] IN
           it[1] = "err" =>
             LET row == tbl.rows[it[2]] IN
-              /\ row.w # "ok" => it[3] = 1 /\ it[4] = "DataError"
-              /\ row.w = "ok" /\ FirstBad(row) # 0 => it[3] = FirstBad(row) /\ it[4] = "FieldValueError"
-              /\ row.w = "ok" /\ FirstBad(row) = 0 => it[4] = "CheckError" /\ it[3] = 1
+              /\ ~CountOk(row) => it[3] = 1 /\ it[4] = "DataError"
+              /\ CountOk(row) /\ FirstBad(row) # 0 => it[3] = FirstBad(row) /\ it[4] = "FieldValueError"
+              /\ CountOk(row) /\ FirstBad(row) = 0 => it[4] = "CheckError" /\ it[3] = 1
 
 \* C05: a row is rejected by a unique check iff an earlier ACCEPTED row has the same key; the error refers back to
 \* the first occurrence
@@ -426,7 +472,7 @@ UniqueIffEarlierAccepted ==
              hasTwin == \E c \in 1..NChecks : Checks[c].t = "u" /\
                           \E b \in accepted : b < i /\ KeyOf(c, tbl.rows[b]) = KeyOf(c, row)
          IN /\ byUnique => hasTwin
-            /\ (row.w = "ok" /\ FirstBad(row) = 0 /\ hasTwin) => it[1] = "err"
+            /\ (CountOk(row) /\ FirstBad(row) = 0 /\ hasTwin) => it[1] = "err"
             /\ byUnique => it[6] = Min({b \in accepted : b < i /\ KeyOf(it[5], tbl.rows[b]) = KeyOf(it[5], row)})
 \* C05: the end-of-data verdict of a distinct count is about the rows that reached the check
 Reached(tbl, c, out) ==
